@@ -10,7 +10,10 @@ package siml
 import (
 	"fmt"
 	"math/big"
+	"os"
+	"path/filepath"
 	"reflect"
+	"regexp"
 	"sort"
 	"strings"
 
@@ -39,6 +42,7 @@ type bindCall struct {
 	kind   string // call, expand, make, send
 	method string
 	nargs  int
+	params []any
 	halted bool
 	null   bool // HALTed with Null on top of the stack
 	fault  string
@@ -55,7 +59,7 @@ type bindActor struct {
 func (a *bindActor) run(kind string, c util.Uint160, op string, params ...any) (*result.Invoke, error) {
 	script := CallScript(c, op, params...)
 	p := a.w.WhatIf(script, nil, 0)
-	bc := bindCall{kind: kind, method: op, nargs: len(params), halted: p.State == vmstate.Halt, fault: p.Fault, null: topIsNull(p)}
+	bc := bindCall{kind: kind, method: op, nargs: len(params), params: params, halted: p.State == vmstate.Halt, fault: p.Fault, null: topIsNull(p)}
 	a.calls = append(a.calls, bc)
 	res := &result.Invoke{State: p.State.String(), GasConsumed: p.GAS, Script: script, Stack: p.Stack, FaultException: p.Fault}
 	return res, nil
@@ -73,7 +77,7 @@ func (a *bindActor) Call(c util.Uint160, op string, params ...any) (*result.Invo
 	// iterators are handed out the way an RPC server with sessions does
 	script := CallScript(c, op, params...)
 	p := a.w.whatIfRaw(script)
-	a.calls = append(a.calls, bindCall{kind: "call", method: op, nargs: len(params), halted: p.State == vmstate.Halt, fault: p.Fault, null: topIsNull(p)})
+	a.calls = append(a.calls, bindCall{kind: "call", method: op, nargs: len(params), params: params, halted: p.State == vmstate.Halt, fault: p.Fault, null: topIsNull(p)})
 	res := &result.Invoke{State: p.State.String(), GasConsumed: p.GAS, Script: script, Stack: p.Stack, FaultException: p.Fault}
 	for i, it := range p.RawIters {
 		if it == nil {
@@ -110,26 +114,26 @@ func (a *bindActor) TraverseIterator(_ uuid.UUID, it *result.Iterator, num int) 
 	return vals, nil
 }
 
-func (a *bindActor) rec(kind, method string, n int) {
-	a.calls = append(a.calls, bindCall{kind: kind, method: method, nargs: n})
+func (a *bindActor) rec(kind, method string, params []any) {
+	a.calls = append(a.calls, bindCall{kind: kind, method: method, nargs: len(params), params: params})
 }
 
 func (a *bindActor) MakeCall(c util.Uint160, m string, params ...any) (*transaction.Transaction, error) {
-	a.rec("make", m, len(params))
+	a.rec("make", m, params)
 	return transaction.New([]byte{0x40}, 0), nil
 }
 func (a *bindActor) MakeRun(script []byte) (*transaction.Transaction, error) {
 	return transaction.New(script, 0), nil
 }
 func (a *bindActor) MakeUnsignedCall(c util.Uint160, m string, _ []transaction.Attribute, params ...any) (*transaction.Transaction, error) {
-	a.rec("make", m, len(params))
+	a.rec("make", m, params)
 	return transaction.New([]byte{0x40}, 0), nil
 }
 func (a *bindActor) MakeUnsignedRun(script []byte, _ []transaction.Attribute) (*transaction.Transaction, error) {
 	return transaction.New(script, 0), nil
 }
 func (a *bindActor) SendCall(c util.Uint160, m string, params ...any) (util.Uint256, uint32, error) {
-	a.rec("send", m, len(params))
+	a.rec("send", m, params)
 	return util.Uint256{}, 0, nil
 }
 func (a *bindActor) SendRun(script []byte) (util.Uint256, uint32, error) {
@@ -253,6 +257,26 @@ func (p *bindPools) value(t reflect.Type, try int) reflect.Value {
 	return reflect.Zero(t)
 }
 
+var genMethods = map[string]map[string]bool{}
+
+var reGenMethod = regexp.MustCompile(`(?m)^func \(c \*Contract(?:Reader)?\) ([A-Za-z0-9_]+)\(`)
+
+// generatedMethod tells whether rpc/<pkg>/rpcbinding.go (the generated file)
+// defines the method.
+func generatedMethod(pkg, name string) bool {
+	set, ok := genMethods[pkg]
+	if !ok {
+		set = map[string]bool{}
+		raw, err := os.ReadFile(filepath.Join(RepoDir(), "rpc", pkg, "rpcbinding.go"))
+		must(err)
+		for _, m := range reGenMethod.FindAllStringSubmatch(string(raw), -1) {
+			set[m[1]] = true
+		}
+		genMethods[pkg] = set
+	}
+	return set[name]
+}
+
 // bindingsPass drives every binding method of every repository contract of w.
 func bindingsPass(r *Run, w *World) {
 	var keysSorted []string
@@ -323,6 +347,29 @@ func bindOne(r *Run, a *bindActor, obj reflect.Value, m reflect.Method, d *Deplo
 		for _, c := range a.calls {
 			if c.kind == "make" || c.kind == "send" {
 				isReader = false
+			}
+			// every Go argument of the binding method must be forwarded, in order
+			// (an overloaded contract method would otherwise silently be hit with
+			// fewer arguments); `…Expanded` methods carry one extra item count
+			want := len(args) - 1
+			if strings.HasSuffix(m.Name, "Expanded") {
+				want--
+			}
+			if !generatedMethod(d.Repo, m.Name) {
+				want = -1 // hand-written helper next to the generated code: name/arity only
+			}
+			if want >= 0 && c.nargs != want && len(a.calls) == 1 {
+				r.Violation("C15/binding-drops-or-adds-arguments", "", "rpc/%s.%s takes %d arguments but invokes %s with %d", d.Repo, m.Name, want, c.method, c.nargs)
+				return
+			}
+			if c.nargs == want && len(a.calls) == 1 {
+				for k := 0; k < want; k++ {
+					gv := args[k+1].Interface()
+					if reflect.TypeOf(gv) == reflect.TypeOf(c.params[k]) && !reflect.DeepEqual(gv, c.params[k]) {
+						r.Violation("C15/binding-passes-wrong-argument", "", "rpc/%s.%s: argument %d is not forwarded as given when invoking %s", d.Repo, m.Name, k, c.method)
+						return
+					}
+				}
 			}
 			if man.ABI.GetMethod(c.method, c.nargs) == nil {
 				r.Violation("C15/binding-calls-missing-method", "", "rpc/%s.%s invokes %s with %d arguments: no such method in the manifest compiled from the sources", d.Repo, m.Name, c.method, c.nargs)
